@@ -252,7 +252,7 @@ package models
 //@ axiom [reenc-step] forall(acc string, q string) :: q != "" ==> reencAcc(acc, q) == reencAcc(reencStep(acc, strings.cutBefore(q, "&")), strings.cutAfter(q, "&"))
 //@ func encodeRawQuery
 //@   attr safety C10
-//@   checks idx slice div assert
+//@   checks idx slice div assert extnil
 //@   property C09
 //@   attr deterministic
 //@   modifies nothing
@@ -268,7 +268,7 @@ package models
 //@ pred isSignedHost(h string) = h == "external-preview.redd.it" || h == "styles.redditmedia.com" || h == "preview.redd.it"
 //@ func URLToString
 //@   attr safety C10
-//@   checks idx slice div assert
+//@   checks idx slice div assert extnil
 //@   property C09
 //@   requires [non-nil] URL != nil
 //@   modifies URL.RawQuery, URL.Host
